@@ -344,7 +344,7 @@ def _members_of_bound(bound, w):
     return None
 
 
-def end_to_end(seed=0, w=4, budget_s=60, known_labels=(), shard=0, nshards=1):
+def end_to_end(seed=0, w=4, budget_s=60, known_labels=(), shard=0, nshards=1, known_cases=(), collect=False, only=None):
     """constraint_to_si on every constraint  cmp(shape(x[, y]), constant)  over the stated shapes; every satisfying
     assignment is enumerated and must lie inside every returned bound; sat must be reported for satisfiable constraints"""
     import time
@@ -371,7 +371,10 @@ def end_to_end(seed=0, w=4, budget_s=60, known_labels=(), shard=0, nshards=1):
     evals, distinct, failures, samples, kh = 0, 0, [], [], {}
     cases = [(sn, cn, k) for sn in shapes for cn in cmps for k in range(0, 1 << min(w, 4))]
     for idx, (sn, cn, k) in enumerate(cases):
-        if idx % nshards != shard:
+        if only is not None:
+            if (sn, cn, k) != tuple(only):
+                continue
+        elif idx % nshards != shard:
             continue
         if time.time() - t0 > budget_s:
             break
@@ -413,11 +416,16 @@ def end_to_end(seed=0, w=4, budget_s=60, known_labels=(), shard=0, nshards=1):
                 if lab:
                     break
         if lab:
-            f_ = {"label": lab[0], "kind": "bounded", "witness": {"constraint": f"{cn}({sn},{kk})", "w": w}, "detail": lab[1]}
-            if any(_match(lab[0], p) for p in known_labels):
+            case = f"{lab[0].split('/')[1].split('+')[0]}:{cn}({sn},{kk})@w{w}"
+            f_ = {"label": lab[0], "kind": "bounded", "witness": {"constraint": f"{cn}({sn},{kk})", "w": w, "case": case, "shape": sn, "cmp": cn, "k": kk}, "detail": lab[1]}
+            # a listed finding is identified by the specific constraint that fails (known_cases); label globs are kept for the families
+            # that fail on every input of the class (exceptions in _balance_lshift)
+            if case in known_cases or any(_match(lab[0], p) for p in known_labels):
                 kh[lab[0]] = kh.get(lab[0], 0) + 1
             else:
                 failures.append(f_)
+    if collect:
+        return failures
     return {"status": "violated" if failures else "ok", "evaluations": evals, "distinct_nontrivial": distinct, "failures": failures[:5],
             "n_failures": len(failures), "known_hits": kh, "samples": samples, "reason": "",
             "rule": f"every constraint cmp(shape, constant) over {len(shapes)} shapes x 10 comparisons x all constants at width {w}; every satisfying assignment enumerated; nontrivial = satisfiable"}
@@ -438,24 +446,18 @@ def _match(label, pat):
 
 
 def replay_e2e(task, failure):
-    return {"reproduced": True, "text": failure.get("detail", "")}
+    """re-run the one constraint of the witness on the real claripy and re-evaluate the failed clause"""
+    wit = failure.get("witness", {})
+    if "shape" not in wit:
+        return {"reproduced": False, "text": "witness carries no constraint"}
+    w = wit.get("w", 4)
+    out = end_to_end(w=w, budget_s=120, collect=True, only=(wit["shape"], wit["cmp"], wit["k"]))
+    if out:
+        return {"reproduced": True, "text": out[0]["detail"]}
+    return {"reproduced": False, "text": f"constraint_to_si({wit['constraint']}) at {w} bits reports satisfiable and its bounds contain every satisfying assignment"}
 
 
-def replay_extract_finding(f):
-    import claripy
-    x = claripy.BVS("rf_x", 8, explicit_name=True)
-    sat, repl = claripy.backends.vsa.constraint_to_si(x[3:0] >= 3)
-    out = []
-    for e, b in repl:
-        m = claripy.backends.vsa.convert(b)
-        out.append(f"{e!r} in {m}")
-        if e is x and hasattr(m, "upper_bound") and m.upper_bound < 19:
-            return {"reproduced": True, "text": f"x[3:0] >= 3 yields the bound {m} on x although x = 19 satisfies the constraint"}
-    return {"reproduced": False, "text": "; ".join(out)}
-
-
-def replay_add_finding(f):
-    import claripy
-    x = claripy.BVS("rf_x", 4, explicit_name=True)
-    sat, repl = claripy.backends.vsa.constraint_to_si(claripy.ULT(x + 3, 3))
-    return {"reproduced": not sat, "text": f"constraint_to_si(x + 3 <u 3) at 4 bits reports sat={sat}; x = 13 satisfies the constraint"}
+def replay_finding_e2e(f):
+    """known finding: the listed constraints still fail natively (at least the recorded witness)"""
+    wit = f.get("witness") or {}
+    return replay_e2e({}, {"witness": wit})
